@@ -92,7 +92,7 @@ func init() {
 	}
 
 	checks["C03"] = func(r *Report, p *Program, tier string) {
-		r.Explanation = "Decides the acceptance filter on all three delivery paths: in the directed send helper a reply is decoded only under len==64 and serial==addressed serial, and every value returned without error derives from that decode or is the zero value of the no-reply case (F1); the broadcast receive filter accepts iff len==64 and the serial matches (F2) and the receive loop ends only on read error or acceptance, returning the datagram just read (F3); the decoder and both dispatchers index the message only after len==64 and accept only 0x17, or 0x19 with function 0x20 (F4); request and reply types carry the operation's own function code (A3, L5, L6); the four driver send methods agree on the 0x96 no-reply case (T5). Not decided: what the kernel delivers, or deadline timing."
+		r.Explanation = "Decides the acceptance filter on all three delivery paths: in the directed send helper a reply is decoded only under len==64 and serial==addressed serial, and every value returned without error derives from that decode or is the zero value of the no-reply case (F1); the broadcast receive filter accepts iff len==64 and the serial matches (F2) and the receive loop ends only on read error or acceptance, returning the datagram just read (F3); the decoder and both dispatchers index the message only after len==64 and accept only 0x17, or 0x19 with function 0x20 (F4); request and reply types carry the operation's own function code (A3, L5, L6); the four driver send methods agree on the 0x96 no-reply case (T5). An impossible date or time of day in a reply is never normalised into another value: the decoders let package time reject it, with the layout their encoders format with (K10b, K10c). Not decided: what the kernel delivers, or deadline timing."
 		r.Assumptions = []string{"go/ssa is faithful", "the codec enforces the function code of the struct it decodes into (rule F4 + L5)"}
 		c := NewCodec(r, p, true)
 		if c == nil {
@@ -107,7 +107,8 @@ func init() {
 		RuleTransport(r, p, aspectSet{"T5": true, "T11": true})
 		RuleReadBuffers(r, p)
 		RuleBCD(r, p)
-		RuleK10Only(r, p, map[string]bool{"K10a": true})
+		RuleK10Only(r, p, map[string]bool{"K10a": true, "K10b": true}) // ... nor is an impossible date or time normalised into another value
+		RuleK10c(r, c)
 		// a malformed field makes the call fail: nested decode errors are propagated by the codec
 		RuleK5(r, c)
 		// a boolean byte other than 0/1 is a malformed field: the decoder rejects it (K3)
@@ -166,14 +167,14 @@ func init() {
 	}
 
 	checks["C06"] = func(r *Report, p *Program, tier string) {
-		r.Explanation = "Decides the routing decision table of the directed send helper and the destination value on each route (R1), the default broadcast address (R2), that discovery can reach only the broadcast-all transport and every other operation only broadcast-to/udp/tcp (R3, static call graph through the in-package helpers), one request per call and one write per driver call (A2, A2d, F1 single-send), the configured bind address and port as local address of every socket a path opens or tries to open (T6), stored by the constructor as it was given (CF1), and that the configuration is never written after construction (IM1). Not decided: kernel routing, or that no other host hears a broadcast."
+		r.Explanation = "Decides the routing decision table of the directed send helper and the destination value on each route (R1), the default broadcast address (R2), that discovery can reach only the broadcast-all transport and every other operation only broadcast-to/udp/tcp (R3, static call graph through the in-package helpers), one request per call and one write per driver call (A2, A2d, F1 single-send), the configured bind address and port as local address of every socket a path opens or tries to open (T6), stored by the constructor as it was given (CF1), and that the configuration is never written after construction (IM1). The request is written on the connection itself before the function returns or reads (T5), to an unmapped destination where the netip forms of the write are used (A2d). Not decided: kernel routing, or that no other host hears a broadcast."
 		r.Assumptions = []string{"go/ssa is faithful", "net.UDPAddrFromAddrPort / TCPAddrFromAddrPort convert exactly"}
 		RuleFilter(r, p, aspectSet{"F1": true, "R1": true})
 		RuleR2(r, p)
 		RuleR3(r, p)
 		RuleAPI(r, p, declareAPI(r, []string{"A0", "A2", "IM1"}, map[string]int{"A2": 32, "A0": 0, "IM1": 32}), nil)
-		RuleTransport(r, p, aspectSet{"A2d": true, "T6": true})
-		RuleCF1(r, p) // ... which is the bind address the constructor was given
+		RuleTransport(r, p, aspectSet{"A2d": true, "T6": true, "T5": true}) // T5: the request is written on the connection itself before the function returns or reads
+		RuleCF1(r, p)                                                       // ... which is the bind address the constructor was given
 		RuleImmutable(r, p)
 	}
 
@@ -194,10 +195,11 @@ func init() {
 	}
 
 	checks["C08"] = func(r *Report, p *Program, tier string) {
-		r.Explanation = "Decides the structural guarantees the property rests on: every variable captured by a goroutine and written on one side is accessed on the other only under a common mutex or is of a channel/sync/atomic type (T8, all go statements of the library); a connection never escapes the call that opened it, so replies cannot cross between calls (T9); the process-wide lock is taken exactly for fixed bind ports, before the socket is opened, and released by a deferred unlock (T3); the clock feeding each deadline is read after the lock is acquired, so a call that waited its turn still gets a full timeout (T4); the client configuration and package-level state are read-only at run time (IM1, G1). Not decided: absence of races in general (no whole-program may-happen-in-parallel analysis; sync and net internals trusted), nor any schedule-dependent outcome."
+		r.Explanation = "Decides the structural guarantees the property rests on: every variable captured by a goroutine and written on one side is accessed on the other only under a common mutex or is of a channel/sync/atomic type (T8, all go statements of the library); a connection never escapes the call that opened it, so replies cannot cross between calls (T9); the process-wide lock is taken exactly for fixed bind ports, before the socket is opened, and released by a deferred unlock (T3); the clock feeding each deadline is read after the lock is acquired, so a call that waited its turn still gets a full timeout (T4); the client configuration and package-level state are read-only at run time (IM1, G1). What discovery gets back from the driver - a list its reader goroutine may still be appending to - is only read (T14). Not decided: absence of races in general (no whole-program may-happen-in-parallel analysis; sync and net internals trusted), nor any schedule-dependent outcome."
 		r.Assumptions = []string{"sync.Mutex, channels and package net are correct", "go/ssa is faithful"}
 		RuleShare(r, p, aspectSet{"T8": true})
 		RuleTransport(r, p, aspectSet{"T3": true, "T4": true, "T9": true, "T10": true, "T12": true})
+		RuleRepliesReadOnly(r, p) // discovery while replies are still arriving: the list is only read
 		RuleImmutable(r, p)
 		RuleG1(r, p)
 		// the event handed from the receive loop to the dispatch goroutine is allocated per datagram: a shared one
@@ -237,7 +239,7 @@ func init() {
 	}
 
 	checks["C10"] = func(r *Report, p *Program, tier string) {
-		r.Explanation = "Decides the listener's structure: per datagram exactly one of {error callback, forward}, forwarding only a 64-byte datagram with non-zero serial that decoded, as a value allocated for that datagram (LS1) whose type holds no reference into the reused receive buffer (LS2, K4); one pipe, one consumer, one event callback per element, consumer ends when the pipe is closed (LS3); connected callback once after the bind and never on a bind error (LS4); shutdown order signal -> await driver -> return nil (LS5); driver closes the socket after the signal, hands the handler exactly the bytes read and closes 'done' after the loop (LS6); the status is wired exactly like GetStatus (A6s); event layouts incl. the 0x19 start-of-message (L7e, F4); the shutdown flag shared by the two driver goroutines (T8). A field that is not valid BCD fails the decode (K10a). Nested decode errors are never dropped (K5), booleans are 0/1 (K3), the status date-time is recombined whole in the local zone (Z4, Z5). Not decided: delivery under real scheduling beyond 'single pipe, single consumer', nor OS-level rebinding."
+		r.Explanation = "Decides the listener's structure: per datagram exactly one of {error callback, forward}, forwarding only a 64-byte datagram with non-zero serial that decoded, as a value allocated for that datagram (LS1) whose type holds no reference into the reused receive buffer (LS2, K4); one pipe, one consumer, one event callback per element, consumer ends when the pipe is closed (LS3); connected callback once after the bind and never on a bind error (LS4); shutdown order signal -> await driver -> return nil (LS5); driver closes the socket after the signal, hands the handler exactly the bytes read and closes 'done' after the loop (LS6); the status is wired exactly like GetStatus (A6s); event layouts incl. the 0x19 start-of-message (L7e, F4); the shutdown flag shared by the two driver goroutines (T8). A field that is not valid BCD fails the decode (K10a). Nested decode errors are never dropped (K5), booleans are 0/1 (K3), the status date-time is recombined whole in the local zone (Z4, Z5). A field that is valid BCD decodes: the BCD decoder accepts every pair of decimal nibbles (B2, B3). Not decided: delivery under real scheduling beyond 'single pipe, single consumer', nor OS-level rebinding."
 		r.Assumptions = []string{"Go channels deliver in order to a single receiver", "go/ssa is faithful"}
 		c := NewCodec(r, p, true)
 		if c == nil {
@@ -257,6 +259,11 @@ func init() {
 		RuleK10Only(r, p, map[string]bool{"K10a": true})
 		RuleK5(r, c)
 		RuleK3(r, c)
+		// ... and a field that IS valid BCD decodes: the BCD decoder accepts every byte made of two decimal
+		// nibbles and yields its two digits (B2) - an event with year 2085 is an event, not an error
+		r.Only = map[string]bool{"B2": true, "B3": true}
+		RuleBCD(r, p)
+		r.Only = nil
 		// the status date-time of an event is recombined from its date and time as GetStatus does it, whole and in
 		// the local zone (Z4, Z5) - A6s only compares the two sites with each other
 		r.Only = map[string]bool{"Z4": true, "Z5": true}
@@ -266,7 +273,7 @@ func init() {
 	}
 
 	checks["C11"] = func(r *Report, p *Program, tier string) {
-		r.Explanation = "Decides discovery end to end at the structural level: the collector goroutine appends every datagram until its socket is closed and the shared reply list/err are properly synchronised (T7, T8); the broadcast helper keeps a reply iff it is 64 bytes and decodes, preserves order and duplicates and never fails on a malformed reply (B11, enumerated over all accept/reject patterns of 3 replies); GetDevices maps every kept reply to its result entry with the port completed from the broadcast address (60000 by default) and the name of the matching configured controller (A4/A6 against spec/ops.json for 0, 1 and 2 replies); discovery goes out via the broadcast-all transport only (A2, R3). What the helper hands to the decoder is accepted only with the protocol id its message type allows (F4). Not decided: timing of arrival against the window."
+		r.Explanation = "Decides discovery end to end at the structural level: the collector goroutine appends every datagram until its socket is closed and the shared reply list/err are properly synchronised (T7, T8); the broadcast helper keeps a reply iff it is 64 bytes and decodes, preserves order and duplicates and never fails on a malformed reply (B11, enumerated over all accept/reject patterns of 3 replies); GetDevices maps every kept reply to its result entry with the port completed from the broadcast address (60000 by default) and the name of the matching configured controller (A4/A6 against spec/ops.json for 0, 1 and 2 replies); discovery goes out via the broadcast-all transport only (A2, R3). What the helper hands to the decoder is accepted only with the protocol id its message type allows (F4). The reply list is only read, never filtered in place (T14); a reply's date is parsed by package time with the encoder's layout, so an impossible date is not normalised into another one (K10b, K10c). Not decided: timing of arrival against the window."
 		r.Assumptions = []string{"spec/ops.json states the documented mapping", "go/ssa is faithful"}
 		only := map[string]bool{"GetDevices": true}
 		RuleAPI(r, p, declareAPI(r, []string{"A0", "A2", "A3", "A4", "A6"}, map[string]int{"A0": 0, "A3": 2, "A4": 0}), only)
@@ -281,6 +288,7 @@ func init() {
 		RuleDelivered(r, p, false)
 		RuleReadBuffers(r, p)
 		RuleShareIn(r, p, aspectSet{"T8": true, "T7": true}, func(parent string) bool { return returnsListName(p, parent) })
+		RuleRepliesReadOnly(r, p)
 		RuleR3(r, p)
 		// malformed datagrams never make the call fail: the codec (hex dump included) is handed every datagram,
 		// whatever its length, by the collector goroutine - its index and slice sites are discharged
@@ -288,6 +296,12 @@ func init() {
 		// ... and never produce an entry: what the broadcast helper hands to the decoder is accepted only with the
 		// protocol id the message type allows (0x17; 0x19 for events only)
 		RuleF4(r, p)
+		// every field of an entry is the protocol decoding of its reply: the date of a reply is parsed by package
+		// time with the encoder's layout - an impossible date is never normalised into another one (K10c, K10b)
+		if c11 := NewCodec(r, p, false); c11 != nil {
+			RuleK10c(r, c11)
+		}
+		RuleK10Only(r, p, map[string]bool{"K10b": true})
 	}
 
 	checks["C12"] = func(r *Report, p *Program, tier string) {
